@@ -14,7 +14,7 @@ func Verif_c34_listenviron() {
 		ln := verifChoice(verifPairLenIDs[i], maxLen+1)
 		s := verifString(verifPairIDs[i], ln)
 		for j := 0; j < len(s); j++ {
-			verifAssume(verifInSet(s[j], "ab=A"))
+			verifAssume(verifInSet(s[j], "ab=A1"))
 		}
 		pairs[i] = s
 	}
@@ -42,7 +42,7 @@ func Verif_c34_listenviron() {
 	qn := verifChoice("qlen", 3)
 	q := verifString("q", qn)
 	for j := 0; j < len(q); j++ {
-		verifAssume(verifInSet(q[j], "abA"))
+		verifAssume(verifInSet(q[j], "abA1"))
 	}
 	got := env.Get(q)
 	want, has := "", false
@@ -82,5 +82,46 @@ func Verif_c34_listenviron() {
 	})
 	fv := fe.Get(q)
 	verifAssert(fv.IsSet() == (has && want != ""), "FuncEnviron: empty value must be unset")
+	verifReach("end")
+}
+
+var verifLongNames = [...]string{"k", "j", "i", "h", "g", "f", "e", "d", "c", "b", "a", "m", "n", "o", "p", "q", "r", "s", "t", "u"}
+
+// Verif_c34_long: a long list (sorting no longer falls back to insertion sort)
+// in which two symbolically chosen positions carry the same name: Get returns
+// the value given last, Each yields the name once, in sorted order.
+func Verif_c34_long() {
+	n := verifParam("n")
+	i := verifChoice("first", n-1)
+	j := i + 1 + verifChoice("gap", n-1-i)
+	vals := verifString("vals", n)
+	for k := 0; k < len(vals); k++ {
+		verifAssume(vals[k] >= 'A' && vals[k] <= 'Z')
+	}
+	var pairs []string
+	for k := 0; k < n; k++ {
+		name := verifLongNames[k]
+		if k == i || k == j {
+			name = "X"
+		}
+		pairs = append(pairs, name+"="+vals[k:k+1])
+	}
+	env := ListEnviron(pairs...)
+	vr := env.Get("X")
+	verifAssert(vr.IsSet() && vr.Str == vals[j:j+1], "ListEnviron: Get does not return the value given last for a repeated name")
+	count, prev, sorted := 0, "", true
+	env.Each(func(name string, v Variable) bool {
+		if name == "X" {
+			count++
+			verifAssert(v.Str == vals[j:j+1], "ListEnviron: Each yields an earlier value of a repeated name")
+		}
+		if prev != "" && !(prev < name) {
+			sorted = false
+		}
+		prev = name
+		return true
+	})
+	verifAssert(count == 1, "ListEnviron: Each yields a repeated name more or less than once")
+	verifAssert(sorted, "ListEnviron: Each is not in sorted order")
 	verifReach("end")
 }
